@@ -437,6 +437,7 @@ class ParallelPlatesCalc(CalcImpedanceBase):
     sign algebra over the uninterpreted Airy functions; the prefactor is a product of non-negative terms."""
     name = 'vfps::ParallelPlatesCSR::__calcImpedance'
     tu = 'src/Z/ParallelPlatesCSR.cpp'
+    safety_tags = {'C17', 'C16'}        # "finite samples" (C16): a pole of pow or a division by zero makes a sample infinite or NaN
     params = ['nfreqs', 'f0', 'f_max', 'g']
     nname = 'nfreqs'
     uf_mul = 'sign'
